@@ -17,13 +17,13 @@ import (
 
 func runOne(t *testing.T, c *Case, work, sched *choice.Source, out *wproto.Out, id int) {
 	out.Begin(id)
-	out.OnStuck = func() {
+	out.SetOnStuck(func() {
 		c.Work, c.Sched = work.Tape(), sched.Tape()
 		out.Finding(id, "livelock|never-returned", "livelock", "the run exceeded its scheduler step budget and, left to run freely, still had not returned three seconds later: an endless loop", c)
 		out.End(id, []string{"livelock|never-returned"})
 		out.Count("evaluations", 1)
 		out.Finish("restart", id+1)
-	}
+	})
 	st := &Stats{}
 	fs := RunCase(t, c, work, sched, st)
 	var sigs []string
